@@ -50,6 +50,15 @@ def run(ctx):
         for j, fr in enumerate(['-', '1', '3,1,7', '%d,100000' % rng.randrange(1, len(b))] + (['2', '64'] if thorough else [])):
             cases.append(('i%d_%d' % (i, j), [b.hex(), fr, '1']))
         one.append(('o%d' % i, [b.hex(), '-', '-', '-']))
+    # a caller that keeps calling parse_event until the declared length is reached (it does not stop at the first Game End): replays ending in
+    # a doubled Game End, and ordinary ones, must come out as the one-shot game as well
+    for i, r in enumerate(reps):
+        if r.end == 'double' or i % 10 == 0:
+            cases.append(('i%d_a' % i, [synth.emit(r).hex(), rng.choice(['-', '1', '3,1,7']), '1', 'a']))
+    for v in [(1, 0), (2, 2), (3, 0), (3, 15)]:
+        r = synth.gen_wf(rng, v, nframes=2, end='double')
+        reps.append(r); one.append(('o%d' % (len(reps) - 1), [synth.emit(r).hex(), '-', '-', '-']))
+        cases.append(('i%d_a' % (len(reps) - 1), [synth.emit(r).hex(), '-', '1', 'a']))
     impl, model = both_modes(ctx, 'incr', cases, corr, parallel=16, timeout_ms=60000)
     oneshot = core.run_parallel(R.run_pvh, 'read', one, n=16)
     for cid, f in cases:
@@ -58,7 +67,7 @@ def run(ctx):
         i = int(cid[1:].split('_')[0])
         def fail(what, extra=None):
             corr.oracle_failures.append((cid, what, dict({'mode': 'incr', 'fields': f, 'replay_hex': f[0], 'chunks': f[1],
-                                                         'rerun': 'pvh incr <file: x <replay_hex> %s 1>' % f[1]}, **(extra or {}))))
+                                                         'rerun': 'pvh incr <file: x <replay_hex> %s 1%s>' % (f[1], ' a' if len(f) > 3 else '')}, **(extra or {}))))
         if 'final' not in out:
             fail('incremental parse of a well-formed replay stopped: %s' % [l for l in out if not l.startswith('  ')][-2:]); continue
         # per-call accounting
@@ -110,15 +119,32 @@ def run(ctx):
     from .C13 import check_views
     vcases = [('w%d' % i, [synth.emit(r).hex(), 'm']) for i, r in enumerate(reps[:(80 if thorough else 25)] + reps[-5:]) if r.frames]
     vimpl, _ = both_modes(ctx, 'view', vcases, corr, parallel=16, timeout_ms=60000)
+    vone, _ = both_modes(ctx, 'view', [('o' + c[1:], [f_[0], 'i']) for c, f_ in vcases], corr, parallel=16, timeout_ms=60000)
     for cid, f in vcases:
         corr.seen('view' + f[0]); corr.count('in_progress_views')
         out = vimpl.get(cid) or ['?']
         if out[0] != 'OK' or any(('PANIC' in l or l.startswith('ABORT')) for l in out):
             corr.oracle_failures.append((cid, 'in-progress row view failed: %s' % [l[:100] for l in out if 'PANIC' in l or l.startswith(('ERR', 'ABORT', '?'))][:2],
                                          {'mode': 'view', 'fields': f, 'replay_hex': f[0]})); continue
-        for k in sorted({int(l[4:l.index(']')]) for l in out if l.startswith('  v[')}):
+        ks = sorted({int(l[4:l.index(']')]) for l in out if l.startswith('  v[')})
+        good = True
+        for k in ks:
             if not check_views(out, '  s[%d] ' % k, '  v[%d] ' % k, corr, cid, f, None):
-                break
+                good = False; break
+        # the same frames seen through the finished game (Game::frame(i) of the one-shot result): same records
+        fo = vone.get('o' + cid[1:]) or ['?']
+        if good and ks and fo[0] == 'OK':
+            pre = '  v[%d] ' % ks[-1]
+            inprog = {l[len(pre):].split('=', 1)[0]: l[len(pre):].split('=', 1)[1] for l in out if l.startswith(pre) and '=' in l}
+            fin1 = {l.split('=', 1)[0]: l.split('=', 1)[1] for l in fo if l.startswith('f[') and '=' in l}
+            bad = [k_ for k_ in inprog if k_ in fin1 and fin1[k_] != inprog[k_]]
+            if bad:
+                a_, b_ = inprog[bad[0]].split(','), fin1[bad[0]].split(',')
+                j = next((x for x in range(min(len(a_), len(b_))) if a_[x] != b_[x]), min(len(a_), len(b_)))
+                corr.oracle_failures.append((cid, 'frame record %s, component %d: %s while parsing but %s in the one-shot game (Game::frame of the same index)'
+                                             % (bad[0], j, ','.join(a_[j:j + 3])[:60], ','.join(b_[j:j + 3])[:60]),
+                                             {'mode': 'view', 'fields': f, 'replay_hex': f[0], 'rerun': 'pvh view <file: x <replay_hex> m> and ... i>'}))
+            corr.count('views_compared_with_oneshot', len(inprog))
     # the fragmenting-stream model: std read_exact over arbitrary schedules, and the whole reader over short reads + Interrupted
     rexact_corr(ctx, corr, rng, 600 if thorough else 150)
     readsched_corr(ctx, corr, rng, [synth.emit(r) for r in reps[:(120 if thorough else 30)]], 3, faults=False)
